@@ -79,6 +79,9 @@ def run_shard(ctx):
     U = core_universe()
     P = U.P
     concrete = U.concrete()
+    from vlib.universe import warm_up
+
+    ctx.extra["first_use_order"] = warm_up(U, ctx.rng("warm-up"))[:6]
     all_names = list(U.order) + ["ASTNode"]
 
     # ------------------------------------------------------------------ validate=True
